@@ -2,26 +2,29 @@
 (the structural clauses of the spline property).
 
 Decides (engines D, P):
-  R-term  do_approx is the only recursion in its call graph; every self-call
-          passes `max_dep - 1` in the depth position, is reachable only on the
-          `max_dep != 0` edge (which also discharges the unsigned underflow),
-          and on the `max_dep == 0` edge no self-call is reachable. Ranking
-          function: max_dep. The initial budget is 10 + len.ilog2().
+  R-term  do_approx is the only recursion in its call graph. The body is interpreted
+          over symbolic a, b with eval / halt / the self-call uninterpreted, in the four
+          scenarios (budget == 0 | > 0) x (halt yes | no): with budget 0 no self-call
+          (and no underflow panic) is reachable; otherwise every self-call passes
+          budget - 1 and the same spline / criterion / accumulator. Ranking function:
+          max_dep. The initial budget is 10 + len.ilog2(). Independent of how the tests
+          are spelled (||, match, early return, loop over the halves).
   R-ctor  BezierSpline(..) is built only in `new`, after
           `len >= 4 && len % 3 == 1` on every path; from_rays returns through
           new. Hence len >= 4 wherever approximate runs: ilog2's zero panic,
           self.0[len-1], self.0[0] and last().unwrap() are in range.
-  R-leaf  the only push in do_approx is control-dependent on
-          `max_dep == 0 || halt(real - approx)`: every emitted piece met the
-          caller's criterion or sits at the depth bound; what is pushed is
-          eval(a) of that piece
-  R-ends  approximate calls do_approx(0.0, 1.0, ..); the first self-call keeps
-          `a`, the second keeps `b` (the midpoint is shared), so the left-most
+  R-leaf  same interpretation: with budget 0 or an accepting halt exactly eval(a) is
+          pushed and nothing else; otherwise nothing is pushed and the piece is
+          subdivided; halt is asked about eval(mid) - (eval(a) + eval(b)) / 2
+  R-ends  approximate calls do_approx(0.0, 1.0, ..); the self-calls cover [a, mid]
+          then [mid, b] with mid = (a + b) / 2 (same interpretation), so the left-most
           leaf pushes eval(0.0); eval/step return the first control point for
           t <= 0 (abstract interpretation over the orderings of t vs 0 and 1);
           after the recursion approximate pushes self.0[len-1] verbatim
 Leaves: evaluator agreement, tangent, convex hull, continuity at joins.
 """
+from fractions import Fraction
+
 from . import facts, guards as G, term as T, common, absint as A, callgraph as CG
 
 SP = "retrofire_core::math::spline::"
@@ -33,6 +36,154 @@ ADT = SP + "BezierSpline"
 
 def s(t):
     return T.strip(t, sites=False, refs=True)
+
+
+
+def do_approx_contract(rep, prog, do):
+    """R-term / R-leaf / R-ends(bisection), decided on do_approx's behaviour rather than its shape: the body is interpreted over
+    symbolic a, b with `eval`, `halt` and the recursive call as uninterpreted functions, once per scenario
+    (budget == 0 | budget > 0) x (halt says yes | no). However the tests and the recursion are written (||, match, early return,
+    a loop over the two halves), it must
+      - with budget 0, or when halt accepts: push exactly eval(a) and not recurse;
+      - otherwise: push nothing and call itself on [a, mid] then [mid, b], mid = (a + b) / 2, with budget - 1 and the same
+        spline, criterion and accumulator;
+      - ask halt about eval(mid) - (eval(a) + eval(b)) / 2."""
+    from . import symalg as S, absint as A, constfold as CF
+    cfg = prog.config
+    half = Fraction(1, 2)
+
+    def scenario(dep_zero, halt_val, fork_oracle=None):
+        calls, halts, evals = [], [], []
+        cell = A.Frame(None)
+        cell.locals[0] = ("array", [])
+        accum = ("ref", cell, 0, [])
+        scell = A.Frame(None)
+        scell.locals[0] = ("adt", ADT, "BezierSpline", [("symvec", "n")])
+        selfref = ("ref", scell, 0, [])
+        hcell = A.Frame(None)
+        hcell.locals[0] = ("sym", "halt")
+        haltref = ("ref", hcell, 0, [])
+
+        def root(it, r):
+            while isinstance(r, tuple) and r[0] == "ref" and isinstance(it.load_ref(r), tuple) and it.load_ref(r)[0] == "ref":
+                r = it.load_ref(r)
+            return (id(r[1]), r[2], tuple(map(str, r[3]))) if isinstance(r, tuple) and r[0] == "ref" else r
+
+        def m_self(it, args, c, d):
+            calls.append((root(it, args[0]), A.deref_all(it, args[1]), A.deref_all(it, args[2]), A.deref_all(it, args[3]),
+                          root(it, args[4]), root(it, args[5]), len(cell.locals[0][1])))
+            return ("tuple", [])
+
+        def m_eval(it, args, c, d):
+            t = A.deref_all(it, args[1])
+            evals.append(t)
+            return ("symop", "eval", t, None)
+
+        def m_halt(it, args, c, d):
+            tup = A.deref_all(it, args[1])
+            halts.append(A.deref_all(it, tup[1][0]) if isinstance(tup, tuple) and tup[0] == "tuple" and tup[1] else tup)
+            return int(halt_val)
+
+        def orc(op, a, b):
+            # budget > 0: comparisons of d against 0 (and the ones against 1 that follow from d >= 1) are decided
+            for x, y, flip in ((a, b, False), (b, a, True)):
+                if x == ("sym", "d") and isinstance(y, int) and y in (0, 1):
+                    res = {"Eq": None if y == 1 else False, "Ne": None if y == 1 else True, "Lt": False, "Ge": True,
+                           "Gt": True if y == 0 else None, "Le": False if y == 0 else None}
+                    if flip:
+                        res = {"Eq": res["Eq"], "Ne": res["Ne"], "Gt": res["Lt"], "Le": res["Ge"], "Lt": res["Gt"], "Ge": res["Le"]}
+                    return res.get(op)
+            return fork_oracle(op, a, b) if fork_oracle is not None else None
+        models = dict(CF.MODELS)
+        models.update({DO: m_self, "BezierSpline::<T>::eval": m_eval, "ops::function::Fn::call": m_halt})
+        it = S.interp(prog, models=models, oracle=orc)
+        panic = None
+        try:
+            it.call_body(do, [selfref, S.sym("a"), S.sym("b"), 0 if dep_zero else S.sym("d"), haltref, accum], env={"T": "f32"})
+        except A.Panic as e:
+            panic = str(e)
+        return dict(calls=calls, halts=halts, evals=evals, pushed=list(cell.locals[0][1]), panic=panic,
+                    roots=(root(it, selfref), root(it, haltref), root(it, accum)))
+
+    def poly(v):
+        try:
+            return S.to_poly(v)
+        except S.NotPolynomial:
+            return None
+    pa, pb_ = {("a",): Fraction(1)}, {("b",): Fraction(1)}
+    pmid = {("a",): half, ("b",): half}
+    state = {"ok": True, "n": 0}
+
+    def bad(rule, key, msg):
+        state["ok"] = False
+        rep.violate(rule, key, do.where(), msg, config=cfg)
+
+    def judge(r, tag, dep_zero, halt_val):
+        if r["panic"]:
+            bad("C17.R-term", "R-term|unguarded", "do_approx panics with %s (%s): the recursion is reachable with an exhausted budget" % (tag, r["panic"][:80]))
+            return
+        if dep_zero or halt_val:
+            if r["calls"] and dep_zero:
+                bad("C17.R-term", "R-term|unguarded", "recursive call is reachable with max_dep == 0 (%s): unbounded recursion / underflow" % tag)
+            elif r["calls"]:
+                bad("C17.R-leaf", "R-leaf|recurse-after-halt", "do_approx subdivides a piece that the caller's criterion accepted (%s)" % tag)
+            if [poly(x) for x in r["pushed"]] != [poly(("symop", "eval", S.sym("a"), None))]:
+                bad("C17.R-leaf", "R-leaf", "with %s do_approx pushes %s instead of exactly eval(a)" % (tag, [str(x)[:60] for x in r["pushed"]] or "nothing"))
+        else:
+            if r["pushed"]:
+                bad("C17.R-leaf", "R-leaf", "a flattened piece can be emitted without having met the caller's criterion or the depth bound (%s: pushes %s)"
+                    % (tag, [str(x)[:60] for x in r["pushed"]]))
+            if not r["calls"]:
+                if not r["pushed"]:
+                    bad("C17.R-leaf", "R-leaf|dropped", "with %s do_approx neither emits the piece nor subdivides it" % tag)
+            elif [(poly(c[1]), poly(c[2])) for c in r["calls"]] != [(pa, pmid), (pmid, pb_)]:
+                bad("C17.R-ends", "R-ends|bisection", "with %s the recursive calls do not cover [a, mid] then [mid, b] with mid = (a + b) / 2 (intervals: %s)"
+                    % (tag, [(str(c[1])[:40], str(c[2])[:40]) for c in r["calls"]]))
+            for c in r["calls"]:
+                if poly(c[3]) != {("d",): Fraction(1), (): Fraction(-1)}:
+                    bad("C17.R-term", "R-term|not-decreasing", "recursive call does not pass max_dep - 1 (passes %s): no ranking function" % str(c[3])[:60])
+                if (c[0], c[4], c[5]) != r["roots"]:
+                    bad("C17.R-term", "R-term|other-state", "recursive call does not pass on the same spline, criterion and accumulator")
+        if r["halts"] or (not dep_zero and not r["pushed"]):
+            # whenever a piece is subdivided, and whenever halt is consulted at all, it is about this piece's flatness
+            mids = [m for m in r["evals"] if poly(m) == pmid]
+            want_h = None
+            if mids:
+                ends = P_add(poly(("symop", "eval", S.sym("a"), None)), poly(("symop", "eval", S.sym("b"), None)))
+                want_h = P_add(poly(("symop", "eval", mids[0], None)), {k: -half * v for k, v in ends.items()})
+            if not r["halts"] or want_h is None or any(poly(h) != want_h for h in r["halts"]):
+                bad("C17.R-leaf", "R-leaf|criterion", "halt is not asked about eval(mid) - lerp(eval(a), eval(b), 0.5) (%s: %s)" % (tag, [str(h)[:80] for h in r["halts"]] or "not asked"))
+
+    for dep_zero in (True, False):
+        for halt_val in (True, False):
+            try:
+                # any further comparison (the budget against another constant, say) forks; a fork is judged when some budget 1..64 follows it
+                paths = S.explore(lambda o: scenario(dep_zero, halt_val, o), max_paths=16)
+            except A.Undecided as e:
+                raise common.Infra("C17.R-term: do_approx could not be interpreted for budget %s, halt=%s (%s)" % ("0" if dep_zero else "> 0", halt_val, e))
+            for trace, r in paths:
+                wit = None
+                if trace:
+                    for dv in ([0] if dep_zero else range(1, 65)):
+                        try:
+                            if S.trace_holds(trace, {"d": float(dv), "a": 0.25, "b": 0.75, "n": 7.0}):
+                                wit = dv
+                                break
+                        except S.NotNumeric:
+                            break
+                    if wit is None:
+                        continue
+                state["n"] += 1
+                judge(r, "budget %s, halt says %s" % ("== 0" if dep_zero else ("> 0" if wit is None else "= %d" % wit), "yes" if halt_val else "no"), dep_zero, halt_val)
+    ok_all, n_scn = state["ok"], state["n"]
+    rep.inst("C17.R-term", "do_approx interpreted in %d scenarios (budget == 0 | > 0) x (halt yes | no): leaf pushes exactly eval(a) without recursing; otherwise "
+             "recursion on [a,mid],[mid,b] with budget - 1, same state; halt sees eval(mid) - (eval(a)+eval(b))/2: %s" % (n_scn, ok_all), config=cfg)
+    return ok_all
+
+
+def P_add(a, b):
+    from . import poly as PL
+    return PL.padd(a, b)
 
 
 def check_config(rep, prog):
@@ -47,40 +198,7 @@ def check_config(rep, prog):
     rep.inst("C17.R-term", "bodies reachable from do_approx that call back into it (other than itself): %s" % back, config=cfg)
     if back:
         rep.violate("C17.R-term", "R-term|mutual", do.where(), "do_approx is part of a larger recursion cycle through %s" % back, config=cfg)
-    zero_edges_t, zero_edges_f = [], []
-    for sb, tr, fa in G.bool_edges(do, sl, lambda d: d[0] == "bin" and d[1] in ("Eq", "Ne", "Gt", "Lt", "Ge", "Le")
-                                   and {s(d[2]), s(d[3])} == {("param", 4), ("const", "u32", 0)}):
-        d, _n = G.strip_not(sl.operand(do.term(sb)["discr"]))
-        a_is_dep = s(d[2]) == ("param", 4)
-        # normalise to: zero_edges_t = edges where max_dep == 0
-        if d[1] == "Eq":
-            zero_edges_t += tr
-            zero_edges_f += fa
-        elif d[1] == "Ne":
-            zero_edges_t += fa
-            zero_edges_f += tr
-        elif (d[1] == "Gt" and a_is_dep) or (d[1] == "Lt" and not a_is_dep):
-            zero_edges_t += fa
-            zero_edges_f += tr
-        elif (d[1] == "Le" and a_is_dep) or (d[1] == "Ge" and not a_is_dep):
-            zero_edges_t += tr
-            zero_edges_f += fa
-    if not zero_edges_f:
-        rep.violate("C17.R-term", "R-term|no-depth-test", do.where(), "do_approx never tests its depth budget against zero", config=cfg)
-    for bi, t in selfcalls:
-        dep = s(sl.operand(t["args"][3]))
-        core = dep
-        while core[0] == "field" and core[2] == "0" and core[1][0] == "bin":
-            core = core[1]
-        dec = core[0] == "bin" and core[1].startswith("Sub") and s(core[2]) == ("param", 4) and core[3] == ("const", "u32", 1)
-        guarded = bool(zero_edges_f) and G.guarded_by(do, bi, zero_edges_f)
-        same_self = s(sl.operand(t["args"][0])) == ("param", 1) and s(sl.operand(t["args"][4])) == ("param", 5) and s(sl.operand(t["args"][5])) == ("param", 6)
-        rep.inst("C17.R-term", "self-call at %s: depth argument %s is max_dep - 1: %s; only on the max_dep != 0 edge: %s; same spline/halt/accum: %s"
-                 % (do.where(bi, None), T.show(dep)[:40], dec, guarded, same_self), config=cfg)
-        if not dec:
-            rep.violate("C17.R-term", "R-term|not-decreasing", do.where(bi, None), "recursive call does not pass max_dep - 1 (passes %s): no ranking function" % T.show(dep)[:60], config=cfg)
-        if not guarded:
-            rep.violate("C17.R-term", "R-term|unguarded", do.where(bi, None), "recursive call is reachable with max_dep == 0: unbounded recursion / underflow", config=cfg)
+    contract = do_approx_contract(rep, prog, do)
     # initial budget
     ap = prog.body(APPROX)
     asl = T.Slicer(ap)
@@ -97,45 +215,6 @@ def check_config(rep, prog):
     if not fin:
         rep.violate("C17.R-term", "R-term|budget", ap.where(bi, None), "initial depth budget is not 10 + len.ilog2() (%s)" % T.show(bud)[:60], config=cfg)
 
-    # ---- R-leaf
-    pushes = [(pb, pt) for pb, pt in do.calls(lambda c: c["path"].endswith("Vec::<T, A>::push"))]
-    halt_edges = G.bool_edges(do, sl, lambda d: d[0] == "call" and (d[1].startswith("<indirect>") or d[1].split(" => ")[0].endswith("function::Fn::call")))
-    halt_true = [e for _b, tr, _f in halt_edges for e in tr]
-    ok_leaf = len(pushes) == 1
-    if ok_leaf:
-        pb, pt = pushes[0]
-        ok_leaf = G.guarded_by(do, pb, zero_edges_t + halt_true) and s(sl.operand(pt["args"][0])) == ("param", 6)
-        val = s(sl.operand(pt["args"][1]))
-        is_eval_a = val[0] == "call" and val[1].split(" => ")[0].endswith("BezierSpline::<T>::eval") and s(val[2][1]) == ("param", 2)
-        # halt is asked about real - approx
-        ok_halt = False
-        for hb, _tr, _fa in halt_edges:
-            d, _n = G.strip_not(sl.operand(do.term(hb)["discr"]))
-            arg = d[2][1] if len(d[2]) > 1 else None
-            if arg is not None:
-                sub = [q for q in T.walk(arg) if q[0] == "call" and q[1].split(" => ")[0].endswith("space::Affine::sub")]
-                if sub:
-                    real, approx = s(sub[0][2][0]), s(sub[0][2][1])
-                    ok_halt = real[0] == "call" and "::eval" in real[1] and approx[0] == "call" and "Lerp::lerp" in approx[1]
-        rep.inst("C17.R-leaf", "the one push in do_approx is under `max_dep == 0 || halt(..)`: %s; pushes eval(a): %s; halt sees eval(mid) - lerp(eval(a), eval(b)): %s"
-                 % (ok_leaf, is_eval_a, ok_halt), config=cfg)
-        ok_leaf = ok_leaf and is_eval_a and ok_halt
-    if not ok_leaf:
-        rep.violate("C17.R-leaf", "R-leaf", do.where(), "a flattened piece can be emitted without having met the caller's criterion or the depth bound (or is not eval(a))", config=cfg)
-
-    # ---- R-ends: sub-interval bookkeeping
-    if len(selfcalls) == 2:
-        order = sorted(selfcalls, key=lambda x: sum(1 for y in selfcalls if do.dominates(y[0], x[0])))
-        (b1, t1), (b2, t2) = order
-        a1, m1 = s(sl.operand(t1["args"][1])), s(sl.operand(t1["args"][2]))
-        m2, bb2 = s(sl.operand(t2["args"][1])), s(sl.operand(t2["args"][2]))
-        mid_ok = m1 == m2 and m1[0] == "call" and "Lerp::lerp" in m1[1] and s(m1[2][0]) == ("param", 2) and s(m1[2][1]) == ("param", 3) and m1[2][2] == ("const", "f32", 0.5)
-        ok = a1 == ("param", 2) and bb2 == ("param", 3) and mid_ok and do.dominates(b1, b2)
-        rep.inst("C17.R-ends", "recursion is do_approx(a, mid) then do_approx(mid, b) with mid = lerp(a, b, 0.5): %s" % ok, config=cfg)
-        if not ok:
-            rep.violate("C17.R-ends", "R-ends|bisection", do.where(), "the two recursive calls do not cover [a, mid] then [mid, b] in that order", config=cfg)
-    else:
-        rep.violate("C17.R-ends", "R-ends|bisection", do.where(), "do_approx does not make exactly two recursive calls", config=cfg)
     # final push of the last control point, after the recursion
     fp = [(pb, pt) for pb, pt in ap.calls(lambda c: c["path"].endswith("Vec::<T, A>::push"))]
     ok_last = False
